@@ -260,7 +260,13 @@ EvDec ==
   /\ LET e == E
          d == ds[e.obj]
          fails == DecRules(d, e, K, OkData(d.cout, e.written, e.data))
-     IN /\ Report(fails, 16)
+               \* all plaintext written and all deflate data consumed: only the zlib trailer is
+               \* missing, which needs no output space
+               \o Iff("dec_no_has_more_output_when_only_trailer_missing",
+                      K.v = "done" /\ acc.zlib /\ ~BadGeometry(e) /\ d.cout + e.written = K.plen
+                        /\ d.cin + e.consumed >= K.endbyte - 4 /\ e.consumed = e.in_len
+                      => e.status # "HasMoreOutput")
+     IN /\ Report(fails, 17)
         /\ ds' = [ds EXCEPT ![e.obj] = DecNext(d, e, AdlerSeq(d.dig, e.data))]
   /\ l' = l + 1
   /\ Keep(<<acc, cs, ip, cid, dc, ss, cc, seen>>)
@@ -276,6 +282,16 @@ EvDecEnd ==
            \o Iff("driver_loop_makes_progress", ~e.spun)
            \o Iff("invalid_stream_never_done", K.v \in {"rej", "starved"} /\ ~(K.why = "dist_before_start" /\ e.wrap) => ~d.done)
      IN Report(fails, 3)
+  /\ l' = l + 1
+  /\ Keep(<<acc, cs, ip, cid, dc, ds, ss, cc, seen>>)
+
+\* a stream generated from spec/DeflateGen.tla carries the generator's own verdict: the two
+\* descriptions of the format must agree on it (guards the oracle itself)
+EvGenExpect ==
+  /\ Is("gen_expect")
+  /\ Report(Iff("generator_and_acceptor_agree",
+                IF E.expect = "done" THEN acc.ph = "done" /\ acc.endbyte = Len(Rec[cs].z)
+                ELSE acc.ph = "rej" /\ acc.why = E.why), 1)
   /\ l' = l + 1
   /\ Keep(<<acc, cs, ip, cid, dc, ds, ss, cc, seen>>)
 
@@ -321,7 +337,9 @@ EvVec ==
 EvSliceIter ==
   /\ Is("sliceiter")
   /\ LET e == E
-         room == e.out_len >= K.plen + (IF e.nslices > 1 THEN 1 ELSE 0)
+         \* several slices need one spare output byte (a full buffer with starved input reads as
+         \* "has more output") - except when only the zlib trailer is missing
+         room == e.out_len >= K.plen + (IF e.nslices > 1 /\ ~(HasF(e, "trailer_cut") /\ e.trailer_cut) THEN 1 ELSE 0)
          fails ==
               Iff("sliceiter_valid_stream_decodes",
                   K.v = "done" /\ room /\ e.whole =>
@@ -542,7 +560,7 @@ Known == {"case", "input", "stream", "compressed", "roundtrip", "panic", "hang",
           "comp_new", "comp", "flushpoint", "defl", "defl_end",
           "dnew", "dec", "dec_end", "equiv", "state_same", "vec", "sliceiter", "inf_new", "inf", "inf_end", "equiv_s", "cksum",
           "c_init", "c_call", "c_reset", "c_end", "c_misuse", "c_compress", "c_compressed_valid",
-          "c_uncompress", "c_mem_to_mem", "c_mem_to_heap", "c_bound", "pair", "bb", "bb_end", "note"}
+          "c_uncompress", "c_mem_to_mem", "c_mem_to_heap", "c_bound", "pair", "bb", "bb_end", "note", "gen_expect"}
 
 \* an event the spec has no action for is itself a failure (never silently skipped)
 EvUnknown ==
@@ -558,7 +576,7 @@ Next == \/ EvCase \/ EvInput \/ EvStream \/ AccRun \/ EvStreamDone
         \/ EvInfNew \/ EvInf \/ EvInfEnd \/ EvEquivS \/ EvCksum
         \/ EvCInit \/ EvCCall \/ EvCReset \/ EvCEnd \/ EvCMisuse \/ EvCCompress \/ EvCCompressedValid
         \/ EvCUncompress \/ EvCMemToMem \/ EvCMemToHeap \/ EvCBound
-        \/ EvPair \/ EvBB \/ EvBBEnd \/ EvNote
+        \/ EvPair \/ EvBB \/ EvBBEnd \/ EvNote \/ EvGenExpect
         \/ EvUnknown
 
 Spec == Init /\ [][Next]_vars
